@@ -24,11 +24,11 @@ CHECKS = {
   text=("Schedule.tla models every statement of compositeSchedule.Next/Left at which goroutines interleave, doAt counters that overshoot, lazy/explicit "
         "start, unlimited parts, nesting. TLC checks exactly-once/all-drawn-when-finished, per-caller monotonicity, chained starts, stable finish, "
         "Left exactness at its linearisation point, no panic and no lock deadlock for ALL interleavings of 2 callers x 3 calls (3 x 2 in thorough) over a "
-        "tree catalogue (empty parts, unknown parts in every position, nesting); three negative controls must fail. The model is bound to the code both "
+        "tree catalogue (empty parts, unknown parts in every position, nesting); four negative controls must fail. The model is bound to the code both "
         "ways: hundreds of TLC behaviours are executed step by step on the real object (one released goroutine per spec step; site, node and every "
         "return value compared by TLC), and free-running stress histories of random real trees are validated with linearisation intervals."),
-  note=("Small-scope exhaustiveness (callers, calls, tokens, clock bound); replays use tick = 1 h so only tick-free behaviours are replayed; nested "
-        "composites whose first part is empty and followed by an unknown part are outside the explored domain (construction-time Left() has side effects). "
+  note=("Small-scope exhaustiveness (callers, calls, tokens, clock bound); replays use tick = 1 h so only tick-free behaviours are replayed; the constructor's own Left() probes of nested composites are modelled as a "
+        "sequential construction phase (negative control ctorshift = the shipped code, which started nested parts there). "
         "Trusted: hook placement (15 add-only lines), replayer, TLC."),
  ),
 }
